@@ -40,9 +40,18 @@ def make_context():
             return r.fields['of']
         raise Unsupported("context.object of %r" % (r,))
     ctx.methods['id'] = ident
-    ctx.methods['object'] = obj
-    ctx.methods['do'] = lambda I, s, x: PObj('inline-record', fields={'of': x})
+    ctx.methods['object'] = lambda I, s, r: r if _literal(r) else obj(I, s, r)
+    # numbers and strings of numbers are written as they are (GlueSerializer.do / GlueUnSerializer.object pass literals through)
+    ctx.methods['do'] = lambda I, s, x: x if _literal(x) else PObj('inline-record', fields={'of': x})
     return ctx
+
+
+def _literal(x):
+    return isinstance(x, (int, float)) or (isinstance(x, PObj) and x.fields.get('literal') is True)
+
+
+def num(name):
+    return PObj('value', fields={'name': name, 'literal': True})
 
 
 class Pair(FnContract):
@@ -310,11 +319,12 @@ def _lst(x):
 class MethodPair(FnContract):
     property_ids = ('C02', 'C12')
     cls = None
+    file = SUBSET
     fields = ()                # attribute names read by __gluestate__ (properties are modelled as fields)
 
     @property
     def target(self):
-        return SUBSET + ":%s.__setgluestate__" % self.cls
+        return self.file + ":%s.__setgluestate__" % self.cls
 
     @property
     def title(self):
@@ -327,7 +337,7 @@ class MethodPair(FnContract):
         st = St(made=[], cfg=cfg)
         st.obj = self.make_object(cfg)
         st.ctx = make_context()
-        ft = FunctionText(SUBSET, self.cls + '.__gluestate__')
+        ft = FunctionText(self.file, self.cls + '.__gluestate__')
         rec = Interp(P, self.globals_(cfg, st), Hooks(name=self.cls + '.__gluestate__'), ft).run_function(ft, [st.obj, st.ctx], {})
         if not isinstance(rec, dict):
             raise Unsupported("__gluestate__ returned %r" % (rec,))
@@ -337,7 +347,8 @@ class MethodPair(FnContract):
             o = PObj(self.cls, fields={'args': a, 'kwargs': k})
             st.made.append(o)
             return o
-        return Inputs([Builtin(self.cls, make), st.rec, st.ctx], st=st)
+        st.ctor = Builtin(self.cls, make)
+        return Inputs([st.ctor, st.rec, st.ctx], st=st)
 
     def ensures(self, cfg, st, result):
         ok = isinstance(result, PObj) and result.cls == self.cls and len(st.made) == 1 and result is st.made[0]
@@ -418,4 +429,41 @@ class CategoryMP(MethodPair):
 
 
 for c in (CategoricalRoiMP(), MultiRangeMP(), Categorical2DMP(), CategoricalMultiRangeMP(), MultiOrMP(), MaskMP(), CategoryMP()):
+    CONTRACTS.append(c)
+
+
+# -------------------------------------------------------------------------------------------------
+# regions of glue/core/roi.py whose parameters are plain numbers (C08: a saved and restored region contains exactly the same points)
+ROIF = "glue/core/roi.py"
+
+
+class NumericRoiMP(MethodPair):
+    property_ids = ('C02', 'C08')
+    file = ROIF
+    params = ()
+
+    def make_object(self, cfg):
+        return PObj(self.cls, fields={p_: num(p_) for p_ in self.params})
+
+    def expect(self, cfg, st, a, k, f):
+        return [('every-parameter-as-saved', not a and set(k) == set(self.params) and all(k[p_] is f[p_] for p_ in self.params))]
+
+
+class RectMP(NumericRoiMP):
+    cls, params = 'RectangularROI', ('xmin', 'xmax', 'ymin', 'ymax', 'theta')
+
+
+class CircleMP(NumericRoiMP):
+    cls, params = 'CircularROI', ('xc', 'yc', 'radius')
+
+
+class AnnulusMP(NumericRoiMP):
+    cls, params = 'CircularAnnulusROI', ('xc', 'yc', 'inner_radius', 'outer_radius')
+
+
+class EllipseMP(NumericRoiMP):
+    cls, params = 'EllipticalROI', ('xc', 'yc', 'radius_x', 'radius_y', 'theta')
+
+
+for c in (RectMP(), CircleMP(), AnnulusMP(), EllipseMP()):
     CONTRACTS.append(c)
